@@ -125,7 +125,8 @@ PROPS["C03"] = dict(
         dict(name="asan-hsw", src="parse_harness.cpp", cfg="asan-hsw", args=["--prop", "C03"], env=ASAN_ENV),
         dict(name="prod-hsw", src="parse_harness.cpp", cfg="prod-hsw", args=["--prop", "C03"], env={}),
     ],
-    require=["accepted", "valid_doc_x_pad", "sizes_and_last_child", "long_whitespace", "deep", "every_u16_escape"],
+    require=["accepted", "valid_doc_x_pad", "sizes_and_last_child", "long_whitespace", "deep", "every_u16_escape",
+             "c03:parses-into-a-long-lived-reused-document"],
     assumptions=["reference parser value construction (strtod for non-integers, exact decimal comparison for integer kinds)"],
 )
 
@@ -184,7 +185,8 @@ PROPS["C08"] = dict(
         dict(name="asan-hsw", src="toa_harness.cpp", cfg="asan-hsw", env=ASAN_ENV, args=["--prop", "C08"]),
         dict(name="prod-wsm", src="toa_harness.cpp", cfg="prod-wsm", env={}, args=["--prop", "C08"], tiers=("thorough",)),
     ],
-    require=["u64-printed", "i64-printed", "integer-node-roundtrips", "below_1e8_stride", "digit_count_boundaries"],
+    require=["u64-printed", "i64-printed", "integer-node-roundtrips", "below_1e8_stride", "digit_count_boundaries",
+             "arrays_of_long_integers_serialised"],
     assumptions=["glibc snprintf %llu/%lld"],
 )
 
@@ -205,7 +207,8 @@ PROPS["C09"] = dict(
         dict(name="asan-wsm", src="kernel_harness.cpp", cfg="asan-wsm", env=ASAN_ENV, args=["--prop", "C09"]),
     ],
     require=["quote-calls", "quote-via-node-serialize", "placement:ends-on-last-mapped-byte", "placement:ends-1..130-bytes-before-unmapped",
-             "placement:exact-heap-block", "content:escape-in-sub-vector-tail-followed-by-bytes", "audit:quote-table-entries"],
+             "placement:exact-heap-block", "content:escape-in-sub-vector-tail-followed-by-bytes", "audit:quote-table-entries",
+             "quote-after-prefix-in-partly-filled-buffer"],
     assumptions=["a stray read is observable only if it crosses into the PROT_NONE page (production) or the ASan red zone (sanitizer build)"],
 )
 
